@@ -374,6 +374,19 @@ def replay_linear(chk, rs, c, variants):
         if np.max(np.abs((p1 - p0) - c1)) > TOL[prec] * sc:
             _viol(chk, rs, c, "background", "background %s does not shift the concentration uniformly (max dev %.3e)" % (c1, np.max(np.abs((p1 - p0) - c1))), **extra)
             return
+        # the background handed over as a 0-d NumPy array (a value read from a file) and used again for the next solve: the
+        # solver leaves it alone, and both solves carry the same offset
+        bg0 = np.array(c1)
+        _, pa_, fa_ = rs.solve3(q1, kw, srf_bg_conc=bg0)
+        kept = float(bg0)
+        _, pb_, fb_ = rs.solve3(q1, kw, srf_bg_conc=bg0)
+        if kept != c1 or float(bg0) != c1:
+            _viol(chk, rs, c, "background", "the solver overwrites the background value it is given (a 0-d array of %s holds %s after the solve)" % (c1, kept), **extra)
+            return
+        scb = max(float(np.max(np.abs(p1))), abs(c1), 1e-300)
+        if np.shape(pa_) != np.shape(p1) or float(np.max(np.abs(pa_ - p1))) > TOL[prec] * scb or float(np.max(np.abs(pb_ - p1))) > TOL[prec] * scb:
+            _viol(chk, rs, c, "background", "the background %s given as a 0-d array (and used for two solves) does not give the fields of the same background given as a float" % c1, **extra)
+            return
         # a whole-number background written as an INTEGER (srf_bg_conc=400): the same offset as 400.0, at every level
         for cint in (3, -2):
             _, pi_, fi_ = rs.solve3(q1, kw, srf_bg_conc=int(cint))
